@@ -107,6 +107,35 @@ func loadWorld() (*World, error) {
 	}
 	w.errT = types.NewPointer(fmtPkg.Type("wrapError").Type())
 	// pre-compute the harness classification (read-only afterwards)
+	// dependency initialisers: a few pure packages are initialised on every
+	// path (their tables matter, e.g. unicode/utf8); for all others the
+	// variables their init would set are recorded so that a read of one of
+	// them is reported instead of silently seeing a zero value
+	pure := map[string]bool{"unicode/utf8": true, "unicode/utf16": true, "math/bits": true, "unicode": true, "sort": true, "slices": true, "cmp": true}
+	w.initStores = map[*ssa.Global]bool{}
+	w.pureInitOf = map[*ssa.Package]*ssa.Function{}
+	for _, p := range prog.AllPackages() {
+		if p == w.mq {
+			continue
+		}
+		ini := p.Func("init")
+		if ini == nil {
+			continue
+		}
+		if pure[p.Pkg.Path()] {
+			w.pureInitOf[p] = ini
+			continue
+		}
+		for _, b := range ini.Blocks {
+			for _, ins := range b.Instrs {
+				if st, ok := ins.(*ssa.Store); ok {
+					if g, ok := st.Addr.(*ssa.Global); ok && !strings.HasPrefix(g.Name(), "init$") {
+						w.initStores[g] = true
+					}
+				}
+			}
+		}
+	}
 	w.fnName = map[*ssa.Function]string{}
 	w.fnShort = map[*ssa.Function]string{}
 	w.valIdx = map[ssa.Value]int32{}
